@@ -88,6 +88,14 @@ def check(run):
         specs = [rand_shell(rng, [1, 1, 0][(i + k) % 3], cs, nprim=1, nseg=1, sph=False, exp_lo=0.3, exp_hi=3.0) for i in range(3)]
         specs = [s_.copy(center=[core.snap(rng.uniform(-1.5, 1.5), 10) for _ in range(3)]) for s_ in specs]
         one_case(run, specs, eri=True)
+    # uncontracted shells carrying several contraction columns (one primitive, M >= 2 with different coefficients) next to
+    # contracted and single-column shells: every quartet must scale each function consistently, or the pair matrix is no Gram matrix
+    for k in range(2 if quick else 6):
+        s1 = ShellSpec(k % 2, [0.0, 0.0, 0.0], [core.rand_exp(rng, 0.5, 3.0)], [[1.0, 3.0]] if k % 2 == 0 else [[0.5, -2.0, 1.5]], sph=bool(k % 3 == 1))
+        s2 = ShellSpec(1, [0.4, -0.7, 0.9], [core.rand_exp(rng, 0.5, 3.0)], [[1.0]], sph=bool(k % 2))
+        extra = [ShellSpec(0, [-0.6, 0.3, 0.2], [2.0, 0.6], [[0.4], [0.7]])] if k >= 2 else []
+        one_case(run, [s1, s2] + extra, eri=True)
+        run.count("single-primitive shells with several contraction columns")
     for k in range(2 if quick else 10):
         n = 1 + k % (2 if quick else 3)
         one_case(run, gen(rng, n, 1 if quick else 2, 0.1, 10.0, dependent=(k % 2 == 0 and not quick), spread=[0.0, 2.0, 4.0][k % 3]), eri=True)
